@@ -251,4 +251,4 @@ CLAIMS = {
 }
 
 NOT_APPLICABLE = {}
-HOOK_COMMITS = ["177d1bb", "2121f06", "2905ba4"]
+HOOK_COMMITS = ["2121f06", "2905ba4", "177d1bb"]
